@@ -24,6 +24,7 @@ pub struct Norm {
     pub rename_calls: Vec<(String, String)>,
     pub str_params: Vec<String>,
     pub into_vec: Vec<String>,
+    pub iter_on: Vec<String>,
     lvalue_depth: usize,
     tmp_counter: usize,
 }
@@ -246,6 +247,7 @@ impl Norm {
                 .unwrap_or_default(),
             str_params: strs("str_params"),
             into_vec: strs("into_vec"),
+            iter_on: strs("iter_on"),
             lvalue_depth: 0,
             tmp_counter: 0,
         }
@@ -651,7 +653,13 @@ impl VisitMut for Norm {
                 }
                 if let Expr::Path(p) = &*f.expr {
                     let n = p.path.segments.iter().map(|s| s.ident.to_string()).collect::<Vec<_>>().join("::");
-                    if self.into_vec.iter().any(|x| *x == n) {
+                    if self.iter_on.iter().any(|x| *x == n) {
+                        // N9b: `for P in r` with r: &Collection  =>  `for P in r.iter()` (IntoIterator for &C is C::iter)
+                        let sp = f.for_token.span;
+                        let inner = f.expr.clone();
+                        *f.expr = parse_quote!(#inner.iter());
+                        self.log("N9b-for-in-ref-var", sp);
+                    } else if self.into_vec.iter().any(|x| *x == n) {
                         let sp = f.for_token.span;
                         let inner = f.expr.clone();
                         *f.expr = parse_quote!(hq_map_into_vec(#inner));
